@@ -203,7 +203,23 @@ pub fn via_builder_opts(f: &FactSet, interleave: Option<&mut Rng>, defaults: boo
     }))
 }
 
+/// Load binary data. One input in eight (chosen by a hash of the data, so that a replay takes the
+/// same route) goes through a file and `Ontology::from_binary`, the others through `from_bytes`:
+/// the two entry points are documented to read the same format.
 pub fn from_bytes(bytes: &[u8]) -> Built {
+    if crate::rng::hash_bytes(bytes) % 8 == 0 {
+        let dir = scratch_dir("bin");
+        if std::fs::create_dir_all(&dir).is_ok() {
+            let path = dir.join("ontology.hpo");
+            if std::fs::write(&path, bytes).is_ok() {
+                let ps = path.to_string_lossy().to_string();
+                let res = flatten(guard(|| Ontology::from_binary(&ps).map_err(|e| e.to_string())));
+                let _ = std::fs::remove_dir_all(&dir);
+                return res;
+            }
+            let _ = std::fs::remove_dir_all(&dir);
+        }
+    }
     flatten(guard(|| Ontology::from_bytes(bytes).map_err(|e| e.to_string())))
 }
 
